@@ -5,7 +5,7 @@ import os
 from vlib import core, runner
 from .base import Check
 
-OPS = ("C ", "R ", "A ", "X ", "T ", "P ", "D ")
+OPS = ("C ", "R ", "A ", "X ", "T ", "P ", "D ", "U ", "N ")
 
 
 def signature(lines, upto, clause):
@@ -28,46 +28,73 @@ NEGATIVE_CONTROLS = [
                              "(the check reads no source text and uses no private-member access, so nothing can go stale)"),
     ("nc6_signal_order_handled", "AcknowledgeProblem / ClearAcknowledgement record the change time and fire their signal in another order; GetHandled tests IsAcknowledged() before "
                                  "IsInDowntime(); GetProblem via locals"),
+    ("nc7_eager_expiry_guard_order", "round 3, against the new observables: ProcessCheckResult evaluates IsAcknowledged() at its very top (expiry noticed inside "
+                                     "the operation, also for an outdated result); ACKNOWLEDGE_SVC_PROBLEM asks IsAcknowledged() before the OK test; the reminder "
+                                     "guards ask IsAcknowledged() before IsInDowntime(); Service::GetSeverity via locals; AcknowledgeProblem computes "
+                                     "notify && !IsPaused() up front and sets the two attributes in the other order; the stash type via a local — the raw "
+                                     "attribute then differs from the model's at some looks, which the driver accepts (still what it was, or already what the "
+                                     "readers see)"),
 ]
 
 
 class C06(Check):
     prop = "C06"
     required_theorems = ["normal_cleared_by_state_change", "sticky_cleared_only_by_recovery", "unchanged_state_keeps_ack",
-                         "expiry_clears", "handled_iff", "ack_notify_once", "refuse_ok_or_acked", "cleared_event_once",
-                         "ack_comments_removed", "problem_withheld_while_acked", "stored_expiry_is_requested",
-                         "comment_expiry_timer", "downtime_bit",
+                         "expiry_clears", "handled_iff", "raw_attribute_consistent", "ack_notify_once", "refuse_ok_or_acked",
+                         "refusal_justified", "cleared_event_once", "ack_comments_removed", "ack_comment_as_requested",
+                         "removal_removes_comments", "problem_withheld_while_acked", "withheld_problem_is_stashed",
+                         "paused_result_is_silent", "reminder_withheld_while_acked", "reminder_only_from_remind",
+                         "stored_expiry_is_requested", "comment_expiry_timer", "downtime_bit",
                          "model_trace_meets_spec", "model_trace_meets_spec_from_init"]
     technique = ("Lean 4 proof (closed form of every operation + relation between the specification's bookkeeping and the model state, "
                  "induction over the history; ghost-counter balance for the events) over a hand-written model; correspondence by exhaustive + "
-                 "random differential execution of the real HTTP dispatcher / API actions, external commands, cluster handlers, ProcessCheckResult "
-                 "and the comment-expiry timer")
+                 "random differential execution of the real HTTP dispatcher / API actions, external commands, cluster handlers, ProcessCheckResult, "
+                 "the comment-expiry timer, NotificationComponent's reminder handler and pausing (SetAuthority), with the raw attribute read before and "
+                 "GetHandled / GetSeverity / GetAcknowledgement in rotating order after every operation")
     level_text = ("Machine-checked theorems (Lean 4 kernel): for every configuration and every finite sequence of acknowledge (HTTP request / API action, "
                   "ACKNOWLEDGE_*_PROBLEM[_EXPIRE], event::SetAcknowledgement; normal/sticky, any expiry, notify, persistent), remove-acknowledgement "
-                  "(three entry points), check results, time advances, runs of the comment-expiry timer and downtimes coming and going, with arbitrary "
-                  "times, the model's trace satisfies the executable "
-                  "specification of the property (clearing rules, expiry, handled, one Acknowledgement notification, refusals, one cleared event per "
-                  "clearing, comment removal), without further hypothesis (F-C06a, found by this check, is fixed in /repo by 6eaa5f1 and kept as a "
+                  "(three entry points), check results, time advances, runs of the comment-expiry timer, due reminders, downtimes and pausing coming "
+                  "and going, with arbitrary times, the model's trace satisfies the executable "
+                  "specification of the property, 30 clauses without mask: clearing rules, expiry — seen by whichever reader looks first (handled, severity "
+                  "class, acknowledgement), the raw attribute lagging only by that lazy expiry —, stored expiry as requested, handled, exactly one "
+                  "Acknowledgement notification (none from a paused object, set event in any case), refusals and that nothing else is refused, one cleared "
+                  "event per clearing, the acknowledgement comment as requested (entry time, persistence independent of sticky, expiry), its removal by "
+                  "clearing results / remove-acknowledgement / the comment timer (expired non-persistent ones only) and by nothing else, a due Problem "
+                  "notification either requested or stashed under its own type — withheld exactly while acknowledged / in a downtime / behind an older "
+                  "stash —, reminders withheld exactly while acknowledged (downtime, soft state, pending first notification aside); without further "
+                  "hypothesis (F-C06a, found by this check, is fixed in /repo by 6eaa5f1 and kept as a "
                   "regression case). The model is tied to the code by running the "
-                  "real entry points on real Host/Service objects over all sequences of 4 (5 thorough) operations from a 15-symbol alphabet x "
+                  "real entry points on real Host/Service objects over all sequences of 4 (5 thorough) operations from a 16-symbol alphabet x "
                   "host/service x max_check_attempts 1..2 plus random histories with times, and diffing every observation; the same specification "
                   "predicate is evaluated on the implementation's own trace")
     level_note = ("Trusted: Lean kernel (+ propext, Classical.choice, Quot.sound), sampled correspondence of the hand-written model, harness/driver. "
-                  "Not modelled: reachability, flapping, pausing, the zone test of the cluster handlers (C13), the suppressed-notification timer (C02), "
-                  "a downtime's own life cycle (C05; it enters as the bit 'in effect'); an HTTP request is modelled as the API action it reaches."
-                  " Compared are only accepted/refused (any 2xx / any exception), counts of signals (not their order), sorted comment sets — see "
-                  "NEGATIVE_CONTROLS in checks/c06.py for the six harmless rewrites the check stays silent on.")
+                  "Modelled since round 3: pausing (bit set by SetAuthority), the stash bits Problem/Recovery of suppressed_notifications, the reminder "
+                  "guards of NotificationComponent::NotificationTimerHandler, GetSeverity's acknowledged class, the raw attribute before the look. "
+                  "Not modelled: reachability, flapping, the zone test of the cluster handlers (C13), the suppressed-notification timer that empties the "
+                  "stash (C02; parked), when a reminder is due (C03; the harness makes it due), whether the comment-expiry timer runs (oracle on the P "
+                  "line; the specification does not look at it), a downtime's own life cycle (C05; it enters as the bit 'in effect'); an HTTP request is "
+                  "modelled as the API action it reaches; cluster acktype other than 1|2 and origin->FromZone are not driven. The cluster handler "
+                  "accepting an OK/Up object is kept as the anchors' split (theorem cluster_accepts_ok; refusing a relayed decision would let HA members "
+                  "diverge). When a state notification is due is C01/C02's rule (sendNotification), evaluated by the specification on the observed "
+                  "state/type/attempt. "
+                  "Compared are only accepted/refused (any 2xx / any exception), counts of signals (not their order), sorted comment sets, bits — see "
+                  "NEGATIVE_CONTROLS in checks/c06.py for the seven harmless rewrites the check stays silent on. One private member is reached by name "
+                  "(NotificationComponent::NotificationTimerHandler, as harness/c03.cpp does); renaming it breaks the harness build, not the property.")
     trusted_base = [
-        "modelled, not verified: Checkable::GetAcknowledgement/AcknowledgeProblem/ClearAcknowledgement/GetHandled, the acknowledgement and "
-        "notification-suppression lines of ProcessCheckResult, RemoveAckComments, the acknowledgement entry points of ApiActions, "
-        "ExternalCommandProcessor and ClusterEvents; the C01 model for state type and hard changes",
+        "modelled, not verified: Checkable::GetAcknowledgement/AcknowledgeProblem/ClearAcknowledgement/GetHandled, Host/Service::GetSeverity's "
+        "acknowledged class, the acknowledgement, notification-suppression and stash lines of ProcessCheckResult, RemoveAckComments, the "
+        "acknowledgement entry points of ApiActions, ExternalCommandProcessor and ClusterEvents, the reminder guards of "
+        "NotificationComponent::NotificationTimerHandler; the C01 model for state type and hard changes",
+        "each case has one Notification object without users, period, times or filters (interval 1 s), constructed directly; no "
+        "NotificationComponent is started (requests are counted at OnNotificationsRequested, reminder attempts at OnNotificationSentToAllUsers); "
+        "the N operation resets next_notification and calls NotificationTimerHandler on a never-activated component",
         "the harness registers one never-committed ConfigItem for the host name so that Comment::AddComment's host_name validation passes; "
         "Host/Service objects are constructed directly as test/icinga-checkresult.cpp does; comments are created by the code under test "
         "(ConfigObjectUtility::CreateObject in a scratch data directory)",
     ]
     assumptions = [
         "times used by the harness are positive integers (exact in binary64)",
-        "no dependency, flapping disabled, object not paused, no ApiListener (cluster relay is a no-op)",
+        "no dependency, flapping disabled, no ApiListener (cluster relay is a no-op; pausing is SetAuthority on the checkable only)",
         "downtimes are fixed downtimes constructed directly (as test/icinga-checkresult.cpp does) that are in effect while registered",
         "only the comment-expiry timer becomes due when the harness pumps (Timer::VerifFireDue): the timers Checkable::Start creates are "
         "parked in the far future; whether the timer ran is taken from the implementation (oracle input on the P line)",
@@ -141,12 +168,13 @@ class C06(Check):
         res.traces_validated = stats["cases"]
         res.exhaustive = True
         n = 5 if tier == "thorough" else 4
-        res.rule = (f"exhaustive: every sequence of {n} operations over a 15-symbol alphabet (results OK/CRITICAL/WARNING, a late OK result, "
-                    "acknowledge via HTTP request normal / API action sticky+persistent+expiry / external command / external _EXPIRE command / "
-                    "cluster event, remove via HTTP request / external command, time advance, timer pump, downtime on / off) x host/service x "
-                    "max_check_attempts 1..2 from a never-checked object "
+        res.rule = (f"exhaustive: every sequence of {n} operations over a 16-symbol alphabet (results OK/CRITICAL/WARNING, a late OK result, "
+                    "acknowledge via HTTP request normal / API action sticky+persistent+expiry / external command / external _EXPIRE command "
+                    "sticky+non-persistent / cluster event, remove via HTTP request / external command, time advance with the first reader rotating, "
+                    "timer pump, downtime toggle, pause toggle, due reminder) x host/service x max_check_attempts 1..2 from a never-checked object, "
+                    "except those beginning with a pure look (advance, pump, reminder: no-ops on a fresh object, so the sequence is its own tail) "
                     "(distinct by construction); plus seeded random histories (length up to 40/120, all entry points, expiry in the future / now / "
-                    "past / none, late and outdated results, volatile, max 1..4) and the corpus. evaluations = operations executed on the real "
+                    "past / none, late and outdated results, volatile, max 1..4, pausing, reminders, random first reader) and the corpus. evaluations = operations executed on the real "
                     "code; a case counts as non-trivial when an acknowledgement was set and later cleared, distinct by hash of its operation "
                     "lines (counted by the Lean driver)")
         res.samples = runner.extract_case(save, 12345) + ["..."] + runner.extract_case(save, gen_stats["cases"])[:14]
